@@ -100,6 +100,20 @@ def run_dir(acc: Acc, seed: int, idx: int, nmoves: int, only=None) -> None:
                     it.words.append(pg.W("fyi"))
                     if form == "plain":
                         mention_targets.add(tgt.zid)
+        # decoys: the text of an INHERITED tag embedded in a token that is not that tag
+        # (bob@office, c++fast, 50%who, [#keys], +foobar for +foo, #tag2 for #tag)
+        for rel, p in z.pages.items():
+            exp = {e.uid: e for e in pg.render(p)[1]}
+            for _b, it in pg.iter_items(p):
+                e = exp.get(it.uid)
+                if e is None:
+                    continue
+                for attr, sig in (("areas", "#"), ("contexts", "@"), ("people", "%"), ("projects", "+")):
+                    inherited = sorted(set(getattr(e, attr)) - set(e.own_tags[attr]))
+                    if inherited and rng.random() < 0.35:
+                        t = rng.choice(inherited)
+                        decoy = rng.choice([f"bob{sig}{t}", f"c{sig}{sig}{t}", f"{sig}{t}2", f"{sig}{t}_x", f"({sig}{t}x)", f"x{sig}{t}."] + ([f"[#{t}]"] if sig == "#" else []))
+                        it.words.append(pg.W(decoy, form="decoy"))
         z.write(root)
         (root / "tmpl").mkdir()
         (root / "tmpl" / "done.zot").write_text(TEMPLATE)
